@@ -317,5 +317,25 @@ func registry() map[string]PropSpec {
 			"canonical encoding: encoding/json.Marshal + jcs.Transform are injective on, and a function of, the JSON data model (member order and number spelling canonicalised); byte-level escaping/number formatting is the libraries' and is not covered",
 			"abstract jwk.Key / jwk.Set / crypto.Signer objects; thumbprint, x509 and sha256 calls (logging only) stubbed"},
 	})
+	add(PropSpec{
+		ID: "C09",
+		Harnesses: []HSpec{
+			{Pkg: ".", Name: "c09_cmd_basic", Quick: map[string]int{}, Unwind: [2]int{64, 64}, FixedMapOrder: true, Models: []string{"net/url.Parse=vpModelURLParse", "path.Join=vpModelPathJoin"},
+				What: "command step (key, label, command incl. multi-line, env nil/empty/populated, signature, extras incl. an alias kept next to an empty primary): json.Marshal -> CommandStep.UnmarshalJSON -> same fields; marshal again -> same data"},
+			{Pkg: ".", Name: "c09_cmd_plugins", Quick: map[string]int{}, Unwind: [2]int{64, 64}, FixedMapOrder: true, Models: []string{"net/url.Parse=vpModelURLParse", "path.Join=vpModelPathJoin"},
+				What: "plugins nil / [] / two plugins with config nil / {} / flat / nested with every scalar kind / []: round trip keeps order, canonical sources, configs"},
+			{Pkg: ".", Name: "c09_cmd_matrix", Quick: map[string]int{}, Unwind: [2]int{64, 64}, FixedMapOrder: true, Models: []string{"net/url.Parse=vpModelURLParse", "path.Join=vpModelPathJoin"},
+				What: "every Matrix.MarshalJSON shape (nil, {}, simple list, named setup with empty list, adjustments with scalar/map `with` and every skip kind, only extras, only adjustments, empty setup) is accepted by the matching UnmarshalOrdered and round-trips"},
+			{Pkg: ".", Name: "c09_cmd_cache", Quick: map[string]int{}, Unwind: [2]int{64, 64}, FixedMapOrder: true, Models: []string{"net/url.Parse=vpModelURLParse", "path.Join=vpModelPathJoin"},
+				What: "every Cache.MarshalJSON shape (false, paths, full map with extras, {}, name only) round-trips"},
+			{Pkg: ".", Name: "c09_pipeline", Quick: map[string]int{}, Unwind: [2]int{64, 64}, FixedMapOrder: true, Models: []string{"net/url.Parse=vpModelURLParse", "path.Join=vpModelPathJoin"},
+				What: "a small pipeline (command with plugin, group with children, wait/input/trigger/unknown step, env block, extras) through the whole-document path: same step kinds, group contents, env order; idempotent"},
+		},
+		Outside: []string{
+			"the entire YAML leg (yaml.v3 interprets the struct tags, emits and re-scans), whether an emitted scalar (yes, 0x1f, 2002-08-15, <<, multi-line text) re-parses to the same typed value, and byte-identical repeated marshalling: properties of the yaml.v3 / encoding/json emitters and parsers, which a hand-written SSA->SMT executor cannot run - not claimed",
+			"the JSON -> node step is modelled: JSON bytes read by yaml.v3 give flow mappings/sequences whose scalars resolve to !!str (quoted), !!int, !!float, !!bool, !!null",
+		},
+		Assumptions: []string{"yaml.Unmarshal of JSON bytes is modelled by converting the abstract JSON tree to the node graph yaml.v3's parser produces for JSON input; yaml.Node.Decode on scalar nodes by tag", "encoding/json.Marshal in the abstract JSON data model", "url/path models as in C17"},
+	})
 	return r
 }
